@@ -324,9 +324,19 @@ class Result:
 
 
 def find_target(target):
+    inner = None
+    if '>' in target:
+        target, inner = target.split('>')
     mod, cname, meth = target.split('.')
     found = source.find_method(mod, cname, meth)
     if not found or found[0] != mod or found[1] != cname:
+        return None
+    if inner is not None:
+        # a function defined inside the method (a closure over self): Class.method>name
+        import ast as _ast
+        for n in _ast.walk(found[2]):
+            if isinstance(n, (_ast.FunctionDef, _ast.AsyncFunctionDef)) and n is not found[2] and n.name == inner:
+                return (found[0], found[1], n)
         return None
     return found
 
@@ -391,6 +401,9 @@ def _verify_body(eng, contract, target, mod, cname, node, res, seed, timeout_ms,
             vars[pos[0]] = None   # filled below
         else:
             vars[pos[0]] = Obj(contract.self_obj)
+    if '>' in target and contract.self_obj is not None:
+        vars['self'] = Obj(contract.self_obj)      # the closure's free variable
+    eng.current_node = node
     fid = ctx.new_id()
     ctx.frames[fid] = Frame(vars, None, contract.self_obj, (mod, cname), fn.name, mod)
     ctx.fid = fid
